@@ -794,27 +794,36 @@ class Node:
         if new_parent._tree is not self._tree:
             raise NotImplementedError("Can only move nodes inside same tree")
 
+        # Validate all arguments before the node is detached, so a refused
+        # call leaves the tree unchanged
+        if new_parent is self or new_parent.is_descendant_of(self):
+            raise ValueError(f"Cannot move {self} to itself or a descendant")
+        for n in new_parent.children:
+            if n is not self and n._data_id == self._data_id:
+                raise UniqueConstraintError(
+                    f"Node.data already exists in parent: {self}"
+                )
+        if isinstance(before, Node) and before is self:
+            raise ValueError("`before` must not be the moved node itself")
+        insert_pos = new_parent._calc_insert_pos(before)
+        if isinstance(before, Node) and self._parent is new_parent:
+            # Adjust for the slot that is freed when we detach `self`
+            if Node.get_index(self) < insert_pos:  # type: ignore
+                insert_pos -= 1  # type: ignore
+
         # NOTE: `list.remove()` checks for equality ('=='), not identity!
         del self._parent._children[Node.get_index(self)]  # type: ignore
         if not self._parent._children:  # store None instead of `[]`
             self._parent._children = None
         self._parent = new_parent
 
-        if before is True:
-            before = 0  # prepend
-
         target_siblings = new_parent._children
         if target_siblings is None:
-            assert before in (None, True, False, 0), before
             new_parent._children = [self]  # type: ignore
-        elif isinstance(before, Node):
-            assert before._parent is new_parent, before
-            idx = target_siblings.index(before)  # raise ValueError if not found
-            target_siblings.insert(idx, self)
-        elif isinstance(before, int):
-            target_siblings.insert(before, self)
-        else:
+        elif insert_pos is None:
             target_siblings.append(self)
+        else:
+            target_siblings.insert(insert_pos, self)
 
         return
 
